@@ -150,3 +150,8 @@ contract(FR, "Slice.insert_at", {"self": "Slice", "pos": "int", "fragment": "Fra
          ensures=["result is not None ==> result.open_start == self.open_start and result.open_end == self.open_end",
                   "(result is None) == (not ins_nochk(self.content.content, pos + self.open_start, fragment.content, self.open_start, self.open_end))"],
          props=P)
+
+# C02's deductive part also covers the join / validation points of replace
+for _k in ("NodeType.compatible_content", "NodeType.valid_content", "ContentMatch.compatible"):
+    if "C02" not in _api.CONTRACTS[_k].props:
+        _api.CONTRACTS[_k].props.append("C02")
